@@ -112,17 +112,25 @@ pub fn families_scaled(scale: u8) -> Vec<Family> {
     let wide = [VK::Add, VK::Mul, VK::Sub, VK::MulAdd, VK::Select, VK::Horner];
     let mut v = vec![];
     if scale == 0 {
-        v.extend(staged_families(false));
-        // binary arithmetic, two value calls, one assertion of any kind
-        v.push(fam("bin-k2-c1", &BIN, &ASSERTS, 2, 1, 3, 1, &[0, 1, 2], 0, true, true));
-        // two connects (aliasing chains through connect): publics and one generic constant
-        v.push(fam("bin-k2-conn2", &BIN, &CONN, 2, 2, 3, 0, &[2], 0, true, true));
-        // one wide call (mul_add / select / horner) plus one binary call, one assertion
-        v.push(fam("wide1-k2-c1", &wide, &ASSERTS, 2, 1, 3, 1, &[0, 1, 2], 1, true, true));
-        // two Horner steps (chains, shared operands, arbitrary accumulators)
-        v.push(fam("horner-k2-c0", &[VK::Horner], &CONN, 2, 0, 5, 0, &[2], 2, true, true));
+        // smallest first: whatever does not fit the budget is cut from the end and reported
+        let st = staged_families(false);
+        let pick = |n: &str| st.iter().find(|f| f.name == n).cloned().unwrap();
+        v.push(pick("sum-of-products-3+2"));
+        v.push(pick("dedup-chain-4ops-2in"));
+        v.push(pick("wide2-k2-c0"));
+        v.push(pick("conn3-k2"));
         // bit decomposition of a public or a computed value
         v.push(fam("bits-k2-c1", &[VK::Add, VK::Mul, VK::Bits(2), VK::Bits(3)], &CONN, 2, 1, 2, 0, &[1, 2], 0, true, true));
+        // two Horner steps (chains, shared operands, arbitrary accumulators)
+        v.push(fam("horner-k2-c0", &[VK::Horner], &CONN, 2, 0, 5, 0, &[2], 2, true, true));
+        // two connects (aliasing chains through connect): publics and one generic constant
+        v.push(fam("bin-k2-conn2", &BIN, &CONN, 2, 2, 3, 0, &[2], 0, true, true));
+        // binary arithmetic, two value calls, one assertion of any kind
+        v.push(fam("bin-k2-c1", &BIN, &ASSERTS, 2, 1, 3, 1, &[0, 1, 2], 0, true, true));
+        v.push(pick("products-2-then-addsub-3"));
+        v.push(pick("dup-ops-3-conn2"));
+        // one wide call (mul_add / select / horner) plus one binary call, one assertion
+        v.push(fam("wide1-k2-c1", &wide, &ASSERTS, 2, 1, 3, 1, &[0, 1, 2], 1, true, true));
         return v;
     }
     if scale == 1 {
